@@ -540,3 +540,5 @@ def check(run, prog):
     rule_directive_line(run, prog)           # R-7.5
     from .c05_file_read import rule_lossless_read
     rule_lossless_read(run, prog, "R-7.6")
+    from .snippet_rules import rule_statement_extent
+    rule_statement_extent(run, prog)         # R-7.7
